@@ -9,7 +9,7 @@ Op lines (one case = `init`, then any number of `ls` / `probe` / `put`):
   ls                                            → <logical>=<tok> ... (sorted by logical path) | %e
   probe a,b,c                                   → a=s401,b=pass,c=pass
   put ep=configuration|apply_flows m=PUT|GET|POST body=items|badjson|null items=<l>:<tok>,... |%e
-      fault=none|backup|save:<l>|rread|rstore:<l>|haproxy:<r>|clean:<g|um> gate=0|1 corder=g,um|um,g
+      fault=none|backup|save:<l>|sunlink:<l>|rread|rstore:<l>|runlink:<l>|haproxy:<r>|clean:<g|um> gate=0|1 corder=g,um|um,g
       [rpos=first|last] probes=a,b              → status=<n> phase=<p> mid=<vec>;<vec> | mid=%e
 
   hold <put words>                              → parked | (the put's answer, if it ended before its Backup)
@@ -24,7 +24,7 @@ The judge evaluates the Spec only for fault plans without a fault inside the res
 (`Step.inRestore`): after such a request the rest of the case is outside the theorems' hypotheses.
 
 Logical paths: f/<name> q/<name> p/<name> (name = [a-z0-9]+.yaml), g, um, dm.
-Tokens: flows v<k> valid, quotas q<k> valid, path params anything, gateway g<k>|empty valid,
+Tokens: flows v<k> / w<k> (same flow, longer file) valid, quotas q<k> valid, path params anything, gateway g<k>|empty valid,
 metrics m<k> loadable; everything else is rejected by the dry run / the metrics loader.
 An item token `@` is a value that is not base64.
 -/
@@ -65,7 +65,7 @@ def tokIs (pre : Char) (t : String) : Bool :=
   | [] => false
 
 def fileValid : Path × Bytes → Bool
-  | (.flow n, t) => nested n || tokIs 'v' t   -- the flows loader globs `*.yaml` of the directory itself only
+  | (.flow n, t) => nested n || tokIs 'v' t || tokIs 'w' t   -- the flows loader globs `*.yaml` of the directory itself only
   | (.quota n, t) => nested n || tokIs 'q' t  -- the quota loader skips sub-directories too
   | (.gateway, t) => tokIs 'g' t || t == "empty"
   | _ => true
@@ -102,7 +102,7 @@ def verdict (o : Option Bytes) : String :=
   match o with
   | none => "pass"
   | some t =>
-    if tokIs 'v' t then
+    if tokIs 'v' t || tokIs 'w' t then
       match (t.drop 1).toString.toNat? with
       | some k => "s" ++ toString (400 + k)
       | none => "s?"
@@ -159,6 +159,8 @@ def parseFault (s : String) : Option (Option Step) :=
   else match s.splitOn ":" with
     | ["save", l] => (parsePath l).map fun p => some (.save p)
     | ["rstore", l] => (parsePath l).map fun p => some (.restoreStore p)
+    | ["sunlink", l] => (parsePath l).map fun p => some (.saveUnlink p)
+    | ["runlink", l] => (parsePath l).map fun p => some (.restoreUnlink p)
     | ["haproxy", r] => match r.toNat? with
       | some n => if n == 1 || n == 2 then some (some (.haproxy n)) else none
       | none => none
